@@ -4,6 +4,7 @@ import Driver.Store
 import Driver.Fl
 import Driver.Cls
 import Driver.Flood
+import Driver.Grp
 /-! Model driver: one request per line on stdin, one answer per line on stdout.
     Pure areas answer from the request alone; `store` threads the backend states. -/
 open Drv
@@ -17,6 +18,7 @@ def dispatch (st : State) (line : String) : State × String :=
   | "fl" :: r => (st, Fl.handle r)
   | "cls" :: r => (st, Cls.handle r)
   | "flood" :: r => (st, Flood.handle r)
+  | "grp" :: r => (st, Grp.handle r)
   | "store" :: r => let (s', out) := Store.handle st.store r; ({ st with store := s' }, out)
   | [] => (st, "bad empty")
   | a :: _ => (st, s!"bad area {a}")
